@@ -369,9 +369,17 @@ func drive(t *testing.T, p *PropDef) {
 
 	evalN := 0
 	fixedSeen := map[string]bool{}
+	var traceF *os.File
+	if tp := os.Getenv("VERIF_TRACE_HASHES"); tp != "" {
+		traceF, _ = os.Create(tp)
+		defer traceF.Close()
+	}
 	runOnce := func(sc interface{}) *Outcome {
 		o := p.Run(t, sc)
 		evalN++
+		if traceF != nil {
+			fmt.Fprintf(traceF, "%d %d %q %d\n", evalN, o.LogHash, o.Violation, o.Steps)
+		}
 		if o.Harness == "" && evalN%29 == 0 {
 			o2 := p.Run(t, sc)
 			res.DetRechecked++
